@@ -961,7 +961,39 @@ fn check_csg(cx: &mut Cx, rng: &mut Rng, name: &str, used: &mut Vec<&'static str
         "Inverse" => 1,
         _ => unreachable!(),
     };
-    let args: Vec<Shape> = (0..n_args).map(|_| child(rng, false, used)).collect();
+    // 25% of the reductions are wide (6..=24 inputs: the balanced reduction
+    // has odd levels only from 6 inputs on): small spheres at distinct
+    // centres for a union, their complements for an intersection, and every
+    // centre is a sample point - only input i decides the sign there
+    let mut centres: Vec<P3> = vec![];
+    let wide = matches!(name, "Union" | "Intersection") && rng.chance(0.25);
+    let n_args = if wide { 6 + rng.below(19) } else { n_args };
+    let args: Vec<Shape> = if wide {
+        cx.st.inc("wide_reductions");
+        (0..n_args)
+            .map(|i| {
+                // one cell of a 3x3x3 grid of pitch 2 per input (jittered)
+                let cell = [(i % 3) as f64 - 1.0, ((i / 3) % 3) as f64 - 1.0, ((i / 9) % 3) as f64 - 1.0];
+                let c = round32([
+                    2.0 * cell[0] + rng.uniform(-0.4, 0.4),
+                    2.0 * cell[1] + rng.uniform(-0.4, 0.4),
+                    2.0 * cell[2] + rng.uniform(-0.4, 0.4),
+                ]);
+                let r = (rng.uniform(0.2, 0.5) as f32) as f64;
+                centres.push(c);
+                let cf = [c[0] as f32, c[1] as f32, c[2] as f32];
+                let sphere: Tree = fs::Sphere { center: v3(cf), radius: r as f32 }.into();
+                let d = json!({"Sphere": {"center": c, "radius": r}});
+                if name == "Union" {
+                    Shape { tree: sphere, desc: d }
+                } else {
+                    Shape { tree: fs::Inverse { shape: sphere }.into(), desc: json!({"Inverse": {"shape": d}}) }
+                }
+            })
+            .collect()
+    } else {
+        (0..n_args).map(|_| child(rng, false, used)).collect()
+    };
     let trees: Vec<Tree> = args.iter().map(|s| s.tree.clone()).collect();
     let descs: Vec<Value> = args.iter().map(|s| s.desc.clone()).collect();
     let (tree, desc): (Tree, Value) = match name {
@@ -982,8 +1014,8 @@ fn check_csg(cx: &mut Cx, rng: &mut Rng, name: &str, used: &mut Vec<&'static str
     let mut ev = Ev::new();
     let nt = ev.import(&tree);
     let na: Vec<Node> = trees.iter().map(|t| ev.import(t)).collect();
-    for _ in 0..48 {
-        let p = point(rng, 6.0);
+    for k in 0..48 + centres.len() {
+        let p = if k < centres.len() { centres[k] } else { point(rng, 6.0) };
         let v = ev.at(nt, p);
         if n_args == 0 {
             // documented: empty union is empty (+inf), empty intersection
@@ -1148,6 +1180,53 @@ fn check_xf(cx: &mut Cx, rng: &mut Rng, name: &str, used: &mut Vec<&'static str>
                     );
                 }
             }
+        }
+    }
+    // step and repeat: the transformed shape T(s) is used bare and also,
+    // as the same tree (shared allocation), inside a second application of
+    // the same transform: union[T(union[s, T(s)]), T(s)] is the solid
+    // T(s) + T(T(s)), whatever the order of the inputs
+    if rng.chance(0.35) {
+        let a = xf.apply(s.tree.clone());
+        let mut inner = vec![s.tree.clone(), a.clone()];
+        if rng.chance(0.5) {
+            inner.reverse();
+        }
+        let b = xf.apply(fs::Union { input: inner }.into());
+        let mut outer = vec![b, a.clone()];
+        if rng.chance(0.5) {
+            outer.reverse();
+        }
+        let rep: Tree = fs::Union { input: outer }.into();
+        let nr = ev.import(&rep);
+        cx.st.inc("step_and_repeat_constructions");
+        for i in 0..32 {
+            // points near either copy
+            let base = point(rng, 4.0);
+            let p = round32(if i % 2 == 0 { xf.map(base, false) } else { xf.map(xf.map(base, false), false) });
+            if !(linf(p) < 200.0) {
+                cx.skip("far_point");
+                continue;
+            }
+            let (q1, q2) = (xf.map(p, true), xf.map(xf.map(p, true), true));
+            let got = ev.at(nr, p);
+            let (w1, w2) = (ev.at(ns, q1), ev.at(ns, q2));
+            if w1.is_nan() || w2.is_nan() {
+                cx.skip("argument_nan");
+                continue;
+            }
+            // the model points are exact only up to f32 rounding of the
+            // transform: require a margin well above that
+            let margin = w1.abs().min(w2.abs());
+            if margin < 1e-3 * (1.0 + linf(p)) {
+                cx.skip("near_surface");
+                continue;
+            }
+            let inside = w1 < 0.0 || w2 < 0.0;
+            cx.sign(&format!("{name}:step_and_repeat"), inside, margin, got, || {
+                json!({"construction": "union[T(union[s, T(s)]), T(s)] with T(s) one shared tree", "transform": desc, "p": p,
+                       "s_at_Tinv_p": w1, "s_at_Tinv_Tinv_p": w2, "fidget_value": got})
+            });
         }
     }
     desc
